@@ -289,6 +289,22 @@ impl BmpStateDetails<Dumping> {
             if let Some(id) = self.details.get_peer_ingress_id(pph) {
                 ids.push(id);
             }
+            // The session is over: none of its peers is up any more.
+            self.status_reporter.peer_down(
+                self.router_id.clone(),
+                self.details.is_peer_eor_capable(pph),
+            );
+        }
+        self.status_reporter
+            .pending_eors_update(self.router_id.clone(), 0);
+        if !ids.is_empty() {
+            // mk_final_routing_update_result() does not report the state
+            // change, mk_state_transition_result() does.
+            self.status_reporter.change_state(
+                self.router_id.clone(),
+                BmpStateIdx::Dumping,
+                BmpStateIdx::Terminated,
+            );
         }
 
         let next_state = BmpState::Terminated(self.into());
